@@ -235,6 +235,15 @@ def run(pid, tier, seed, scratch, t0):
     if len(owned) == 0:
         print('UNDECIDED property=%s reason=no obligations generated (vacuity guard)' % pid)
         return 2
+    # vacuity guard: a run that generates fewer owned obligations than the committed floor (the count of the last
+    # reviewed run on the pinned tree) has silently lost contracts, arms or harnesses
+    try:
+        floor = json.load(open(os.path.join(VERIF, 'contracts', 'obligation_floor.json'))).get(pid, {}).get(tier, 0)
+    except Exception:
+        floor = 0
+    if len(owned) < floor:
+        print('UNDECIDED property=%s reason=only %d owned obligations were generated, the committed floor is %d (vacuity guard)' % (pid, len(owned), floor))
+        return 2
     print('OK property=%s tier=%s obligations=%d discharged=%d bounded=%d wall=%.1fs'
           % (pid, tier, len(owned), discharged, len(bounded), wall))
     return 0
